@@ -447,7 +447,12 @@ func (p *parser) parseASCII(minLength, maxLength int) (item ast.ItemNode, ok boo
 
 			if _, ok := p.variableNames[t.val]; ok {
 				p.errorf(t, "duplicated variable name %q", t.val)
-				return ast.NewASCIINode(strings.Repeat("*", minLength)), true
+				// placeholder to continue parsing; kept short whatever size was declared
+				placeholderLength := minLength
+				if placeholderLength > 64 {
+					placeholderLength = 64
+				}
+				return ast.NewASCIINode(strings.Repeat("*", placeholderLength)), true
 			} else {
 				p.variableNames[t.val] = true
 				return ast.NewASCIINodeVariable(t.val, minLength, maxLength), true
